@@ -150,6 +150,7 @@ type LoopSpec struct {
 	Invariants []*Clause
 	Visits     []*Clause // iterator call sites: facts established by every successful visit (old = state at visit start, $m = element)
 	Unroll     bool
+	NoHalt     *Clause // iter: the handler must not return the halt sentinel
 }
 
 // MutateSpec: `mutates p := e` — the callee overwrites the contents of slice argument p with e.
@@ -403,7 +404,7 @@ func (l *lexer) here() SPos { return SPos{l.file, l.peek().line} }
 
 var clauseKeywords = map[string]bool{"requires": true, "ensures": true, "assigns": true, "safety": true, "inline": true,
 	"trusted": true, "loop": true, "iter": true, "invariant": true, "panics": true, "frame": true, "pure": true,
-	"ghost": true, "func": true, "axiom": true, "unroll": true, "fresh": true, "note": true, "external": true, "visit": true, "iterator": true, "exit": true, "guarded": true, "nomerge": true, "mutates": true}
+	"ghost": true, "func": true, "axiom": true, "unroll": true, "fresh": true, "note": true, "external": true, "visit": true, "iterator": true, "exit": true, "guarded": true, "nomerge": true, "mutates": true, "nohalt": true}
 
 type eparser struct {
 	l *lexer
@@ -1242,6 +1243,14 @@ func parseSpecLines(path string, lines []string, lineNos []int) (*SpecFile, erro
 				return nil, p.errf("unroll outside loop")
 			}
 			curLoop.Unroll = true
+		case "nohalt":
+			// iter block: the handler never stops the traversal early (never returns the halt sentinel), so a nil result
+			// of the iteration means every match was visited
+			lx.next()
+			if curLoop == nil {
+				return nil, p.errf("nohalt outside iter")
+			}
+			curLoop.NoHalt = &Clause{Pos: SPos{path, t.line}, Label: "nohalt", Tags: p.parseTags()}
 		case "assume":
 			sf.Tokens["assume"]++
 			return nil, p.errf("'assume' is not allowed in contract files")
